@@ -5,6 +5,9 @@ silent (no violation, no analysis error) on each twin; a twin that makes a rule 
   rename   every local variable of every function gets the suffix _r (parameters, globals, attributes untouched)
   noop     a no-op statement is inserted at the top of every function body
   flip     every single-operator ordering comparison a OP b is rewritten b OP' a
+  invert   every two-armed `if c: A else: B` becomes `if not c: B else: A`
+  namedcond every compound `if` test is first bound to a local (`_vc = test; if _vc:`)
+  tempret  every `return <expr>` becomes `_vr = <expr>; return _vr`
   reflow   sources are re-emitted by ast.unparse (comments dropped, layout and line numbers changed)
 
 usage: twins.py [--write DIR kind]   (default: run all checks on all twins and print a matrix)
@@ -140,6 +143,54 @@ class Flip(ast.NodeTransformer):
         return n
 
 
+def _bodies(tree):
+    for n in ast.walk(tree):
+        for fld in ('body', 'orelse', 'finalbody'):
+            b = getattr(n, fld, None)
+            if isinstance(b, list) and b and isinstance(b[0], ast.stmt):
+                yield n, fld, b
+
+
+def invert_tree(tree):
+    '''if c: A else: B  ->  if not c: B else: A   (plain two-armed ifs only; elif chains untouched)'''
+    for n in ast.walk(tree):
+        if isinstance(n, ast.If) and n.orelse and not (len(n.orelse) == 1 and isinstance(n.orelse[0], ast.If)):
+            n.test = ast.UnaryOp(op=ast.Not(), operand=n.test)
+            n.body, n.orelse = n.orelse, n.body
+    return tree
+
+
+def namedcond_tree(tree):
+    '''if <compound test>:  ->  _vc = <compound test>; if _vc:   (not for elif arms, not for loops)'''
+    k = [0]
+    for parent, fld, body in list(_bodies(tree)):
+        new = []
+        for st in body:
+            is_elif = isinstance(parent, ast.If) and fld == 'orelse' and len(body) == 1 and isinstance(st, ast.If)
+            if isinstance(st, ast.If) and not is_elif and isinstance(st.test, (ast.Compare, ast.BoolOp, ast.UnaryOp, ast.Call)) \
+                    and not any(isinstance(x, (ast.Await, ast.NamedExpr, ast.Yield)) for x in ast.walk(st.test)):
+                k[0] += 1
+                nm = f'_vc{k[0]}'
+                new.append(ast.copy_location(ast.Assign(targets=[ast.Name(id=nm, ctx=ast.Store())], value=st.test), st))
+                st.test = ast.copy_location(ast.Name(id=nm, ctx=ast.Load()), st)
+            new.append(st)
+        setattr(parent, fld, new)
+    return tree
+
+
+def tempret_tree(tree):
+    '''return <expr>  ->  _vr = <expr>; return _vr'''
+    for parent, fld, body in list(_bodies(tree)):
+        new = []
+        for st in body:
+            if isinstance(st, ast.Return) and st.value is not None and not isinstance(st.value, (ast.Name, ast.Constant)):
+                new.append(ast.copy_location(ast.Assign(targets=[ast.Name(id='_vr', ctx=ast.Store())], value=st.value), st))
+                st.value = ast.copy_location(ast.Name(id='_vr', ctx=ast.Load()), st)
+            new.append(st)
+        setattr(parent, fld, new)
+    return tree
+
+
 def make_overlay(kind, root='/repo'):
     repo = Repo(root)
     out = {}
@@ -151,6 +202,12 @@ def make_overlay(kind, root='/repo'):
             tree = noop_tree(tree)
         elif kind == 'flip':
             tree = Flip().visit(tree)
+        elif kind == 'invert':
+            tree = invert_tree(tree)
+        elif kind == 'namedcond':
+            tree = namedcond_tree(tree)
+        elif kind == 'tempret':
+            tree = tempret_tree(tree)
         elif kind == 'reflow':
             pass
         else:
@@ -184,7 +241,7 @@ def main():
                 f.write(src)
         print('written', kind, 'to', d)
         return
-    kinds = [a for a in sys.argv[1:] if not a.startswith('C')] or ['reflow', 'noop', 'flip', 'rename']
+    kinds = [a for a in sys.argv[1:] if not a.startswith('C')] or ['reflow', 'noop', 'flip', 'rename', 'invert', 'namedcond', 'tempret']
     props = [a for a in sys.argv[1:] if a.startswith('C')] or sorted(os.path.basename(p)[:-3].upper() for p in glob.glob(f'{VERIF}/sa/rules/c[0-9][0-9].py'))
     jobs = [(k, p) for k in kinds for p in props]
     noisy = 0
